@@ -20,6 +20,7 @@ EXPLANATION = (
     "before unstage(outputs); staging iterates every leaf of inputs, unstaging every Staging leaf of outputs; C29.3 postprocess_script maps the "
     "outputs with map_nested_value: File('-') -> result, Staging -> remote class at the remote path; C29.4 prepare_command dedents/strips and "
     "prepends the default shell exactly when the text does not start with '#!'."
+    ' C29.2 also: the stage/unstage command lists are one per Staging leaf: walking back from command_parts.extend(...) to iter_nested_value(spec) only list/generator comprehensions filtered by isinstance(.., Staging) and single-assignment names may occur; a dict/set keyed by part of the leaf is reported.'
 )
 
 SC = "redun/scripting.py"
